@@ -48,7 +48,7 @@ func C10(p *Prog, r *Run) {
 			continue
 		}
 		isSuper := false
-		for _, g := range Guards(c.Block()) {
+		for _, g := range guardsResolved(c.Block()) {
 			gt := tm.Of(g.Cond)
 			if gt.Op == "bin" && gt.Name == ">" && g.True && gt.Args[0].Op == "field" && gt.Args[0].Obj == sco && gt.Args[1].String() == "0" {
 				isSuper = true
@@ -69,7 +69,7 @@ func C10(p *Prog, r *Run) {
 		okEO, okSuper := false, false
 		var flag *ssa.Phi
 		var extra []string
-		for _, g := range Guards(cloneCall.Block()) {
+		for _, g := range guardsResolved(cloneCall.Block()) {
 			gt := tm.Of(g.Cond)
 			switch {
 			case gt.Op == "bin" && gt.Name == ">" && gt.Args[0].Op == "field" && gt.Args[0].Obj == eo && gt.Args[0].Args[0].Op == "recv" && gt.Args[1].Op == "const":
@@ -168,7 +168,7 @@ func C10(p *Prog, r *Run) {
 				case allowMut:
 					// mutators of the super-champion offspring: only while more than one is pending
 					g1 := false
-					for _, g := range Guards(u.Block()) {
+					for _, g := range guardsResolved(u.Block()) {
 						gt := tm.Of(g.Cond)
 						if gt.Op == "bin" && gt.Name == ">" && g.True && gt.Args[0].Op == "field" && gt.Args[0].Obj == sco && gt.Args[1].Op == "const" {
 							if k, _ := constInt(gt.Args[1].V); k >= 1 {
@@ -281,7 +281,7 @@ func C10(p *Prog, r *Run) {
 				why = "scaled by " + o.String()
 			case vt.Op == "const":
 				// allowed only under fitness < c with c <= 0
-				for _, g := range Guards(st.Block()) {
+				for _, g := range guardsResolved(st.Block()) {
 					gt := ta.Of(g.Cond)
 					if gt.Op == "bin" && (gt.Name == "<" || gt.Name == "<=") && g.True && gt.Args[0].String() == self && gt.Args[1].Op == "const" {
 						c := gt.Args[1].Name
@@ -306,7 +306,7 @@ func C10(p *Prog, r *Run) {
 		okL := false
 		for _, b := range less.Blocks {
 			if ret, ok := b.Instrs[len(b.Instrs)-1].(*ssa.Return); ok && tl.Of(ret.Results[0]).String() == "true" {
-				for _, g := range Guards(b) {
+				for _, g := range guardsResolved(b) {
 					gt := tl.Of(g.Cond)
 					if gt.Op == "bin" && gt.Name == "<" && g.True && gt.Args[0].String() == "recv[*].Fitness" {
 						if l, ok := g.Cond.(*ssa.BinOp); ok {
@@ -385,6 +385,52 @@ func C10(p *Prog, r *Run) {
 		}
 		r.Check(ok, "sequential.babies-speciated", p.Pos(seq.Pos()), "speciate receives the concatenation of every species' babies", "the sequential executor does not pass all babies to speciate")
 		r.checkSpeciatePartition("speciate")
+	})
+	r.Rule("C10.6", "the champion's genome is intact when it is cloned and its copy stays intact: on the epoch path nothing writes genome content (fields of genes, links, nodes, traits, modules; the genome's lists and their elements) of an object that existed before the call - offspring are built and mutated as fresh copies only", func() {
+		// transitive write sets (wthrough.go): a fact (param, Type.field) means the function may store to that
+		// field of an object reachable from that parameter; objects created inside the call are not listed.
+		type tgt struct {
+			name string
+			fn   *ssa.Function
+		}
+		tgts := []tgt{
+			{"Species.reproduce", rep},
+			{"SequentialPopulationEpochExecutor.NextEpoch", p.Func(PkgG, "SequentialPopulationEpochExecutor.NextEpoch")},
+			{"ParallelPopulationEpochExecutor.NextEpoch", p.Func(PkgG, "ParallelPopulationEpochExecutor.NextEpoch")},
+		}
+		nFacts := 0
+		for _, t := range tgts {
+			r.Fn(FuncName(t.fn))
+			var bad []string
+			pos := p.Pos(t.fn.Pos())
+			idxs := []int{rootGlobal, rootUnknown}
+			for i := range t.fn.Params {
+				idxs = append(idxs, i)
+			}
+			for _, idx := range idxs {
+				who := "an object of unknown origin"
+				switch {
+				case idx >= 0:
+					who = "parameter " + t.fn.Params[idx].Name()
+				case idx == rootGlobal:
+					who = "a package variable"
+				}
+				ws, _ := p.writeSet(t.fn, idx)
+				for _, k := range sortedKeys(ws) {
+					nFacts++
+					if genomeContentFact(k) {
+						if len(bad) == 0 {
+							pos = p.Pos(ws[k].Pos)
+						}
+						bad = append(bad, fmt.Sprintf("%s through %s (at %s via %s)", k, who, p.Pos(ws[k].Pos), strings.Join(ws[k].Via, " -> ")))
+					}
+				}
+			}
+			r.Check(len(bad) == 0, "champion-intact:"+t.name, pos, "no genome content of a pre-existing organism is written",
+				t.name+" writes genome content of an object that existed before the call: "+strings.Join(bad, "; ")+" - when that object belongs to a species' champion (for example the champion picked as the second parent of an interspecies mating before its own species reproduces), the genome that is cloned afterwards, or the clone itself, is no longer the champion's genome of the previous generation")
+		}
+		// the write sets are not empty (the analysis saw the epoch path at all)
+		r.Floor("write-through facts of the epoch path", nFacts, 10)
 	})
 	_ = token.ADD
 }
